@@ -5,34 +5,45 @@
 (* (Connection clones, streams, proxies) and in-flight method handlers (each    *)
 (* handler task holds a reference until it has sent its reply).  When the last   *)
 (* reference goes, the transport halves are dropped (the peer sees the socket     *)
-(* close).  graceful_shutdown() drops the caller's handle and completes when the   *)
-(* inner state is gone.                                                            *)
+(* close) and everybody waiting for that is notified.  graceful_shutdown()        *)
+(* registers a listener for that notification, drops the caller's handle and       *)
+(* completes when notified.  Connection is Clone: any number of handles may be      *)
+(* waiting in graceful_shutdown() at the same time, and all of them complete.        *)
+(* NOTIFY_ALL = FALSE is the mutant "the drop notifies one listener" (must           *)
+(* violate ShutdownCompletes).                                                       *)
 (***************************************************************************)
 EXTENDS Naturals, FiniteSets
-CONSTANTS Handles, Calls
+CONSTANTS Handles, Calls, NOTIFY_ALL
 
 VARIABLES held,      \* user handles not yet dropped
           hstate,    \* [Calls -> {"none","running","replied"}] in-flight handlers
           closed,    \* transport dropped
-          shut       \* "no" | "waiting" | "done"   (graceful_shutdown by the owner of handle h0)
-lvars == <<held, hstate, closed, shut>>
+          shut,      \* [Handles -> "no" | "waiting" | "done"]   graceful_shutdown called through that handle
+          woken      \* listeners notified by the drop of the inner state
+lvars == <<held, hstate, closed, shut, woken>>
 Refs == Cardinality(held) + Cardinality({c \in Calls : hstate[c] = "running"})
+Waiting == {h \in Handles : shut[h] = "waiting"}
 
-LInit == held = Handles /\ hstate = [c \in Calls |-> "none"] /\ closed = FALSE /\ shut = "no"
-Arrive(c)  == /\ hstate[c] = "none" /\ ~closed /\ hstate' = [hstate EXCEPT ![c] = "running"] /\ UNCHANGED <<held, closed, shut>>
+LInit == /\ held = Handles /\ hstate = [c \in Calls |-> "none"] /\ closed = FALSE
+         /\ shut = [h \in Handles |-> "no"] /\ woken = {}
+Arrive(c)  == /\ hstate[c] = "none" /\ ~closed /\ hstate' = [hstate EXCEPT ![c] = "running"] /\ UNCHANGED <<held, closed, shut, woken>>
 \* the handler sends its reply, then releases its reference
-Finish(c)  == /\ hstate[c] = "running" /\ hstate' = [hstate EXCEPT ![c] = "replied"] /\ UNCHANGED <<held, closed, shut>>
-DropH(h)   == /\ h \in held /\ held' = held \ {h} /\ UNCHANGED <<hstate, closed, shut>>
-Close      == /\ ~closed /\ Refs = 0 /\ closed' = TRUE /\ UNCHANGED <<held, hstate, shut>>
-ShutStart  == /\ shut = "no" /\ held # {} /\ \E h \in held : held' = held \ {h}
-              /\ shut' = "waiting" /\ UNCHANGED <<hstate, closed>>
-ShutDone   == /\ shut = "waiting" /\ closed /\ shut' = "done" /\ UNCHANGED <<held, hstate, closed>>
-LNext == (\E c \in Calls : Arrive(c) \/ Finish(c)) \/ (\E h \in Handles : DropH(h)) \/ Close \/ ShutStart \/ ShutDone
+Finish(c)  == /\ hstate[c] = "running" /\ hstate' = [hstate EXCEPT ![c] = "replied"] /\ UNCHANGED <<held, closed, shut, woken>>
+DropH(h)   == /\ h \in held /\ held' = held \ {h} /\ UNCHANGED <<hstate, closed, shut, woken>>
+\* the last reference is gone: drop the transport, notify the listeners registered so far
+Close      == /\ ~closed /\ Refs = 0 /\ closed' = TRUE
+              /\ IF NOTIFY_ALL \/ Waiting = {} THEN woken' = Waiting ELSE \E h \in Waiting : woken' = {h}
+              /\ UNCHANGED <<held, hstate, shut>>
+\* listen, then give up the handle (one step: nothing can come in between that matters)
+ShutStart(h) == /\ h \in held /\ shut[h] = "no" /\ held' = held \ {h}
+                /\ shut' = [shut EXCEPT ![h] = "waiting"] /\ UNCHANGED <<hstate, closed, woken>>
+ShutDone(h)  == /\ shut[h] = "waiting" /\ h \in woken /\ shut' = [shut EXCEPT ![h] = "done"] /\ UNCHANGED <<held, hstate, closed, woken>>
+LNext == (\E c \in Calls : Arrive(c) \/ Finish(c)) \/ (\E h \in Handles : DropH(h) \/ ShutStart(h) \/ ShutDone(h)) \/ Close
 LSpec == LInit /\ [][LNext]_lvars /\ WF_lvars(LNext)
 
 ClosedOnlyWhenUnreferenced == closed => Refs = 0
-ShutdownAfterReplies == shut = "done" => \A c \in Calls : hstate[c] # "running"
-\* once nothing refers to the connection it closes, and a waiting shutdown completes
+ShutdownAfterReplies == \A h \in Handles : shut[h] = "done" => (closed /\ \A c \in Calls : hstate[c] # "running")
+\* once nothing refers to the connection it closes, and every waiting shutdown completes
 ClosesEventually == (Refs = 0) ~> closed
-ShutdownCompletes == (shut = "waiting" /\ Refs = 0) ~> (shut = "done")
+ShutdownCompletes == \A h \in Handles : (shut[h] = "waiting" /\ Refs = 0) ~> (shut[h] = "done")
 =============================================================================
